@@ -7,7 +7,7 @@ import vlib
 from vlib import Case, hx
 
 PROP = "C02"
-PROOF_FILES = ["Properties/C02.v"]
+PROOF_FILES = ["Properties/C02.v", "Properties/ModelTie.v"]
 RULE = ("well-formed packets from logical records (adaptation_field_control 1/2/3; adaptation field length 0..183 with every "
         "subset of PCR/OPCR/splice/private-data/extension, random contents, 0xFF or arbitrary stuffing) serialised by the "
         "extracted Coq serialiser; on each: Payload (function and method), Header, PESHeader; SetPayload with lengths "
